@@ -176,3 +176,17 @@ Example C16D_witness_is_valid :
 Proof.
   split; [repeat constructor; apply layout_fromb_ok; reflexivity|]. split; [repeat constructor | reflexivity].
 Qed.
+
+(* the theorems quantify over lists, so the same object may occur more than once in the list that is merged:
+   [a; b; a] is well-formed and a's data set is placed once per occurrence *)
+Example C16D_repeated_object_nonvacuous :
+  let ins := [ex_a; ex_b; ex_a] in
+  Forall gwf ins /\ Forall dwf ins
+  /\ exists o, drape_merge ins = Ok o
+       /\ drape_children o = [ (0, true, [Some 1; Some 2; Some 3; None; None; None; None; None; None; Some 1; Some 2; Some 3]%Z) ].
+Proof.
+  split; [repeat constructor; apply gwfb_ok; reflexivity|].
+  split.
+  { repeat constructor; simpl; try (intros [H|H]; try discriminate H; try contradiction); try tauto. }
+  eexists. split; [vm_compute; reflexivity | reflexivity].
+Qed.
